@@ -31,6 +31,17 @@ Pafd(c, g, pl, w, tn, td) ==
     << SumTo([l \in 1..Len(w) |-> w[l] * Abs(tn[l] * pl * Tot(c) - td * SumTo([k \in 1..N(c) |-> c[k] * g[k][l]], N(c)))], Len(w)),
        td * pl * Tot(c) >>
 
+\* population allele unavailability: a locus counts when the target frequency tn/td can no longer be reached from the
+\* selected set by selection alone -- target 0 but allele "1" fixed, target 1 but allele "1" absent, intermediate target
+\* but the locus fixed either way.  S = sum_i c_i g_il copies of allele "1" out of pl * sum c.
+PauLocus(c, g, pl, l, tn, td) ==
+    LET S == SumTo([k \in 1..N(c) |-> c[k] * g[k][l]], N(c))  full == pl * Tot(c) IN
+    \/ tn[l] <= 0 /\ S = full
+    \/ tn[l] >= td /\ S = 0
+    \/ tn[l] > 0 /\ tn[l] < td /\ (S = 0 \/ S = full)
+Pau(c, g, pl, w, tn, td) ==
+    << SumTo([l \in 1..Len(w) |-> IF PauLocus(c, g, pl, l, tn, td) THEN w[l] ELSE 0], Len(w)), 1 >>
+
 \* counts of a subset listing (0-based candidate indices) over n candidates
 Counts(x, n) == [k \in 1..n |-> Cardinality({p \in 1..Len(x) : x[p] = k - 1})]
 
